@@ -229,23 +229,37 @@ theorem halfStr_injective (a b : Nat) (h : halfStr a = halfStr b) : a = b := by
 theorem halfStr_zero : halfStr 0 = [48] := by
   simp [halfStr, decNat, digits]
 
-theorem numStr_chars (f : Flt) (hf : f ≠ .nan) : 36 ∉ numStr f := by
-  intro h
-  cases f with
-  | nan => exact hf rfl
-  | inf n => cases n <;> simp [numStr, sInfinity] at h
-  | zero n => simp [numStr] at h
-  | fin t =>
-    unfold numStr at h
-    by_cases ht : t < 0 <;> simp only [ht, if_true, if_false] at h
-    · rcases List.mem_cons.mp h with h | h
-      · omega
-      · have := halfStr_chars _ 36 h; omega
-    · have := halfStr_chars _ 36 h; omega
+/-- What the theorems need of ECMAScript `Number::toString` on finite non-zero doubles (`fs`): it is injective,
+    never prints `$`, and never prints what NaN, ±Infinity or 0 print. (True of every conforming engine: the
+    result is a decimal numeral that converts back to the same number.) This is the trusted part; it is a
+    hypothesis of the theorems, not an axiom. -/
+def ToStringOK (fs : Int → Str) : Prop :=
+  (∀ a b, fs a = fs b → a = b) ∧
+  ∀ a, a ≠ 0 → 36 ∉ fs a ∧ fs a ≠ sNaN ∧ fs a ≠ sInfinity ∧ fs a ≠ 45 :: sInfinity ∧ fs a ≠ [48]
 
-/-- `String` is injective on the modelled non-NaN floats, except that `String(-0) = String(+0)` — exactly Go's `==` -/
-theorem numStr_injective (f g : Flt) (hf : f ≠ .nan) (hg : g ≠ .nan) (wf : fwt f = true) (wg : fwt g = true) :
-    numStr f = numStr g ↔ fltEq f g = true := by
+theorem numStr_chars {fs : Int → Str} (hfs : ToStringOK fs) (f : Flt) (hf : f ≠ .nan) (wf : fwt f = true) :
+    36 ∉ numStr fs f := by
+  cases f with
+  | nan => exact absurd rfl hf
+  | inf n => cases n <;> simp [numStr, sInfinity]
+  | zero n => simp [numStr]
+  | fin t =>
+    have : t ≠ 0 := by simpa [fwt] using wf
+    exact (hfs.2 t this).1
+
+theorem numStr_ne_NaN {fs : Int → Str} (hfs : ToStringOK fs) (f : Flt) (hf : f ≠ .nan) (wf : fwt f = true) :
+    numStr fs f ≠ sNaN := by
+  cases f with
+  | nan => exact absurd rfl hf
+  | inf n => cases n <;> simp [numStr, sInfinity, sNaN]
+  | zero n => simp [numStr, sNaN]
+  | fin t =>
+    have : t ≠ 0 := by simpa [fwt] using wf
+    exact (hfs.2 t this).2.1
+
+/-- `String` is injective on non-NaN floats, except that `String(-0) = String(+0)` — exactly Go's `==` -/
+theorem numStr_injective {fs : Int → Str} (hfs : ToStringOK fs) (f g : Flt) (hf : f ≠ .nan) (hg : g ≠ .nan)
+    (wf : fwt f = true) (wg : fwt g = true) : numStr fs f = numStr fs g ↔ fltEq f g = true := by
   cases f with
   | nan => exact absurd rfl hf
   | inf a =>
@@ -254,50 +268,65 @@ theorem numStr_injective (f g : Flt) (hf : f ≠ .nan) (hg : g ≠ .nan) (wf : f
     | inf b => cases a <;> cases b <;> simp [numStr, fltEq, sInfinity]
     | zero b => cases a <;> simp [numStr, fltEq, sInfinity]
     | fin t =>
-      obtain ⟨c, cs, e, h1, h2⟩ := halfStr_head t.natAbs
-      cases a <;> by_cases ht : t < 0 <;> simp [numStr, fltEq, sInfinity, ht, e] <;> omega
+      have ht : t ≠ 0 := by simpa [fwt] using wg
+      have h := hfs.2 t ht
+      cases a <;> simp only [numStr, fltEq]
+      · exact ⟨fun e => absurd e.symm h.2.2.1, fun e => by cases e⟩
+      · exact ⟨fun e => absurd e.symm h.2.2.2.1, fun e => by cases e⟩
   | zero a =>
     cases g with
     | nan => exact absurd rfl hg
     | inf b => cases b <;> simp [numStr, fltEq, sInfinity]
     | zero b => simp [numStr, fltEq]
     | fin t =>
-      have hz : t.natAbs ≠ 0 := by simp [fwt] at wg; omega
-      by_cases ht : t < 0
-      · simp [numStr, fltEq, ht]
-      · simp only [numStr, fltEq, ht, if_false]
-        constructor
-        · intro h; rw [← halfStr_zero] at h; exact absurd (halfStr_injective _ _ h).symm hz
-        · intro h; cases h
+      have ht : t ≠ 0 := by simpa [fwt] using wg
+      have h := hfs.2 t ht
+      simp only [numStr, fltEq]
+      exact ⟨fun e => absurd e.symm h.2.2.2.2, fun e => by cases e⟩
   | fin s =>
+    have hs : s ≠ 0 := by simpa [fwt] using wf
+    have h := hfs.2 s hs
     cases g with
     | nan => exact absurd rfl hg
     | inf b =>
-      obtain ⟨c, cs, e, h1, h2⟩ := halfStr_head s.natAbs
-      cases b <;> by_cases hs : s < 0 <;> simp [numStr, fltEq, sInfinity, hs, e] <;> omega
+      cases b <;> simp only [numStr, fltEq]
+      · exact ⟨fun e => absurd e h.2.2.1, fun e => by cases e⟩
+      · exact ⟨fun e => absurd e h.2.2.2.1, fun e => by cases e⟩
     | zero b =>
-      have hz : s.natAbs ≠ 0 := by simp [fwt] at wf; omega
-      by_cases hs : s < 0
-      · simp [numStr, fltEq, hs]
-      · simp only [numStr, fltEq, hs, if_false]
-        constructor
-        · intro h; rw [← halfStr_zero] at h; exact absurd (halfStr_injective _ _ h) hz
-        · intro h; cases h
+      simp only [numStr, fltEq]
+      exact ⟨fun e => absurd e h.2.2.2.2, fun e => by cases e⟩
     | fin t =>
-      obtain ⟨c, cs, e, h1, h2⟩ := halfStr_head s.natAbs
-      obtain ⟨c', cs', e', h1', h2'⟩ := halfStr_head t.natAbs
-      by_cases hs : s < 0 <;> by_cases ht : t < 0 <;> simp only [numStr, fltEq, hs, ht, if_true, if_false, beq_iff_eq]
-      · constructor
-        · intro h; have := halfStr_injective _ _ (List.cons.inj h).2; omega
-        · intro h; rw [h]
-      · constructor
-        · intro h; rw [e'] at h; have := (List.cons.inj h).1; omega
-        · intro h; omega
-      · constructor
-        · intro h; rw [e] at h; have := (List.cons.inj h).1; omega
-        · intro h; omega
-      · constructor
-        · intro h; have := halfStr_injective _ _ h; omega
-        · intro h; rw [h]
+      simp only [numStr, fltEq, beq_iff_eq]
+      exact ⟨hfs.1 s t, fun e => by rw [e]⟩
+
+/-- the instance used by the driver (finite doubles that are multiples of 1/2, printed exactly) meets the hypothesis -/
+theorem halfFs_ok : ToStringOK halfFs := by
+  constructor
+  · intro a b h
+    unfold halfFs at h
+    obtain ⟨c, cs, e, h1, h2⟩ := halfStr_head a.natAbs
+    obtain ⟨c', cs', e', h1', h2'⟩ := halfStr_head b.natAbs
+    by_cases ha : a < 0 <;> by_cases hb : b < 0 <;> simp only [ha, hb, if_true, if_false] at h
+    · have := halfStr_injective _ _ (List.cons.inj h).2; omega
+    · rw [e'] at h; have := (List.cons.inj h).1; omega
+    · rw [e] at h; have := (List.cons.inj h).1; omega
+    · have := halfStr_injective _ _ h; omega
+  · intro a ha
+    obtain ⟨c, cs, e, h1, h2⟩ := halfStr_head a.natAbs
+    have hz : a.natAbs ≠ 0 := by omega
+    unfold halfFs
+    by_cases hn : a < 0 <;> simp only [hn, if_true, if_false]
+    · refine ⟨?_, by simp [sNaN], by simp [sInfinity], ?_, by simp⟩
+      · intro m
+        rcases List.mem_cons.mp m with m | m
+        · omega
+        · have := halfStr_chars _ 36 m; omega
+      · rw [e]; simp [sInfinity]; omega
+    · refine ⟨?_, ?_, ?_, ?_, ?_⟩
+      · intro m; have := halfStr_chars _ 36 m; omega
+      · rw [e]; simp [sNaN]; omega
+      · rw [e]; simp [sInfinity]; omega
+      · rw [e]; simp [sInfinity]; omega
+      · intro h; rw [← halfStr_zero] at h; exact hz (halfStr_injective _ _ h)
 
 end GV.Proofs.MapKeyStr
